@@ -362,3 +362,4 @@ A(V("c16-ebdt-strike-set-order", "C16", "subset/__init__.py", "        {g: bitma
 A(V("c04-woff2-version-overwrite", "C04", "ttLib/woff2.py", "            self.minorVersion = data.minorVersion\n", "            self.majorVersion = data.minorVersion\n", "OVERWRITE"))
 A(V("c20-woff-short-head-read", "C20", "ttLib/sfnt.py", 'if hasattr(self, "headTable") and len(self.headTable) >= 8:', 'if hasattr(self, "headTable"):', "HEAD-read"))
 A(V("c16-post-extranames-stored", "C16", "ttLib/tables/_p_o_s_t.py", "        extraNames = [\n            n for n in self.extraNames if n not in standardGlyphOrder", "        extraNames = self.extraNames = [\n            n for n in self.extraNames if n not in standardGlyphOrder", "F11h"))
+A(V("c11-contourpoint-truthy", "C11", "feaLib/ast.py", "        if self.contourpoint is not None:", "        if self.contourpoint:", "FEA-num", count=2))
